@@ -1268,6 +1268,25 @@ impl Sym {
         if n < 0 { Sym::lit(1.0) / r } else { r }
     }
     pub fn mul_add(self, a: Sym, b: Sym) -> Sym { self * a + b }
+    /// integer-valued helpers exist for constants only; on a symbolic value the harness cannot follow (exit 2, never a pass)
+    fn const_f(self, what: &str) -> f64 { match self.to_f64() { Some(x) if self.is_const() => x, _ => abort(Stop::Budget(format!("{} of a symbolic value is not modelled", what))) } }
+    pub fn fract(self) -> Sym { Sym::lit(self.const_f("fract").fract()) }
+    pub fn floor(self) -> Sym { Sym::lit(self.const_f("floor").floor()) }
+    pub fn ceil(self) -> Sym { Sym::lit(self.const_f("ceil").ceil()) }
+    pub fn round(self) -> Sym { Sym::lit(self.const_f("round").round()) }
+    pub fn trunc(self) -> Sym { Sym::lit(self.const_f("trunc").trunc()) }
+    pub fn to_degrees(self) -> Sym { self * Sym::lit(180.0) / Sym::lit(std::f64::consts::PI) }
+    pub fn to_radians(self) -> Sym { self * Sym::lit(std::f64::consts::PI) / Sym::lit(180.0) }
+    pub fn clamp(self, lo: Sym, hi: Sym) -> Sym { self.max(lo).min(hi) }
+    pub fn copysign(self, s: Sym) -> Sym { if decide(lt(s, Sym::lit(0.0))) { -self.abs() } else { self.abs() } }
+    pub fn is_sign_negative(self) -> bool { decide(lt(self, Sym::lit(0.0))) }
+    pub fn is_sign_positive(self) -> bool { !decide(lt(self, Sym::lit(0.0))) }
+    pub fn exp2(self) -> Sym { (self * Sym::lit(std::f64::consts::LN_2)).exp() }
+    pub fn log10(self) -> Sym { self.ln() / Sym::lit(std::f64::consts::LN_10) }
+    pub fn log2(self) -> Sym { self.ln() / Sym::lit(std::f64::consts::LN_2) }
+    pub fn log(self, b: Sym) -> Sym { self.ln() / b.ln() }
+    pub fn cbrt(self) -> Sym { with(|e| e.fun2("pow", self, Sym::lit(1.0 / 3.0))) }
+    pub fn total_cmp(&self, o: &Sym) -> std::cmp::Ordering { self.partial_cmp(o).unwrap_or(std::cmp::Ordering::Equal) }
     pub fn recip(self) -> Sym { Sym::lit(1.0) / self }
     pub fn hypot(self, o: Sym) -> Sym { (self * self + o * o).sqrt() }
     pub fn signum(self) -> Sym { if decide(lt(self, Sym::lit(0.0))) { Sym::lit(-1.0) } else { Sym::lit(1.0) } }
@@ -1389,6 +1408,30 @@ impl std::ops::DivAssign for Sym {
         *self = self.bin(b'/', o);
     }
 }
+
+/// integer casts `x as usize` etc. are routed through this by retype.py (identity for primitives)
+pub trait CastInt<T> { fn cast_int(self) -> T; }
+macro_rules! castint_prim { ($($from:ty),* => $($to:ty),*) => { castint_prim!(@outer [$($from),*] [$($to),*]); };
+    (@outer [$($from:ty),*] $tos:tt) => { $( castint_prim!(@inner $from $tos); )* };
+    (@inner $from:ty [$($to:ty),*]) => { $( impl CastInt<$to> for $from { #[inline] fn cast_int(self) -> $to { self as $to } } )* }; }
+castint_prim!(usize, isize, u8, u16, u32, u64, i8, i16, i32, i64, f32, f64 => usize, isize, u32, u64, i32, i64);
+macro_rules! castint_sym { ($($to:ty),*) => { $( impl CastInt<$to> for Sym { fn cast_int(self) -> $to { self.const_f("integer cast") as $to } } )* } }
+castint_sym!(usize, isize, u32, u64, i32, i64);
+pub fn cast_int<T, S: CastInt<T>>(x: S) -> T { x.cast_int() }
+
+impl From<f64> for Sym { fn from(x: f64) -> Sym { Sym::lit(x) } }
+impl From<i32> for Sym { fn from(x: i32) -> Sym { Sym::lit(x as f64) } }
+impl std::iter::Sum for Sym { fn sum<I: Iterator<Item = Sym>>(it: I) -> Sym { it.fold(Sym::lit(0.0), |a, b| a + b) } }
+impl<'a> std::iter::Sum<&'a Sym> for Sym { fn sum<I: Iterator<Item = &'a Sym>>(it: I) -> Sym { it.fold(Sym::lit(0.0), |a, b| a + *b) } }
+impl std::iter::Product for Sym { fn product<I: Iterator<Item = Sym>>(it: I) -> Sym { it.fold(Sym::lit(1.0), |a, b| a * b) } }
+impl std::ops::Rem for Sym { type Output = Sym; fn rem(self, o: Sym) -> Sym { Sym::lit(self.const_f("%") % o.const_f("%")) } }
+macro_rules! mixed_ops { ($tr:ident, $f:ident) => {
+    impl std::ops::$tr<f64> for Sym { type Output = Sym; #[track_caller] fn $f(self, o: f64) -> Sym { std::ops::$tr::$f(self, Sym::lit(o)) } }
+    impl std::ops::$tr<Sym> for f64 { type Output = Sym; #[track_caller] fn $f(self, o: Sym) -> Sym { std::ops::$tr::$f(Sym::lit(self), o) } }
+} }
+mixed_ops!(Add, add); mixed_ops!(Sub, sub); mixed_ops!(Mul, mul); mixed_ops!(Div, div);
+impl PartialEq<f64> for Sym { fn eq(&self, o: &f64) -> bool { *self == Sym::lit(*o) } }
+impl PartialOrd<f64> for Sym { fn partial_cmp(&self, o: &f64) -> Option<std::cmp::Ordering> { self.partial_cmp(&Sym::lit(*o)) } }
 
 impl PartialEq for Sym {
     #[track_caller]
@@ -1715,7 +1758,14 @@ pub fn prove_fp(label: &str, assumptions: &[B], goal: B) -> Proof {
     with(|e| {
         e.stats.obligations += 1;
         e.path_oblig_labels.push(label.to_string());
-        if e.concrete.is_some() { e.stats.discharged_concrete_const += 1; return Proof::Syntactic; }
+        if e.concrete.is_some() {
+            // concrete replay: the goal is evaluated on the actual doubles (bit-exact comparison); inputs outside
+            // the stated domain do not count
+            let in_dom = assumptions.iter().all(|a| e.eval_b(a) != Some(false));
+            if in_dom && e.cfg.float && e.eval_b(&goal) == Some(false) { e.stats.failed += 1; e.concrete_failures.push(label.to_string()); return Proof::Failed; }
+            e.stats.discharged_concrete_const += 1;
+            return Proof::Syntactic;
+        }
         let mut v: Vec<&B> = assumptions.iter().collect();
         v.push(&goal);
         let text = match e.emit_fp(&v, true) { Some((t, _)) => t, None => { e.stats.undecided += 1; e.undecided_labels.push(format!("{} (no FP encoding)", label)); return Proof::Undecided; } };
